@@ -2,6 +2,7 @@
 import os, json, re
 import vlib
 from props import panellib
+from props import overlap
 
 panellib.refresh_gen()     # coq/Gen/LockGraph.v, Guards.v from /repo's working tree, before the build
 
@@ -129,6 +130,9 @@ def gen_cases(ctx):
     for i in range(nrand):
         users, steps = gen_random(rng, rng.choice([4, 8, 8, 14, 22]))
         cases.append(('r%d' % i, users, steps, 'random'))
+    # calls OVERLAPPING through the UserManager seam (threads held inside AuthenticateUser /
+    # AuthoriseNewSession / UploadStatus): exhaustive small families + seeded ones, see overlap.py
+    cases += overlap.cases(rng, 80 if ctx.quick() else 1200)
     return cases
 
 
@@ -143,6 +147,39 @@ def classify(case_id, k, ses, corresponded):
     if born == 1:
         return 'orphan-session-after-terminate:created-in-a-record-the-panel-had-forgotten'
     return 'record-deleted-by-uid:stale-terminate-forgot-the-newer-record'
+
+
+def lost_sessions(go, cid):
+    """-> (indices of live sessions the panel could not reach, 'after step i (..)' | 'at the end')"""
+    at = go.get('orphat', {}).get(cid)
+    if at:
+        i, ks = at[0]
+        rp = go['replay'].get(cid, [])
+        return ks, 'after step %d (%s)' % (i, rp[3 + i] if len(rp) > 3 + i else '?')
+    if cid in go['orph']:
+        return go['orph'][cid], 'at the end of the scenario'
+    return [], ''
+
+
+def shrink_case(ctx, obj, key):
+    """smaller scenario with the same kind of oracle failure (a few driver runs); obj with case replaced"""
+    case = obj['case']
+    n = [0]
+
+    def judge(batch):
+        n[0] += 1
+        rc, log, go, dt = run_cases(ctx, [(cid, u, st, 'shrink') for cid, u, st in batch], 'shrink%d' % n[0], with_real=False)
+        bad = set()
+        for cid, u, st in batch:
+            if key == 'session-lost' and lost_sessions(go, cid)[0] and cid not in go['blocked']:
+                bad.add(cid)
+            elif key != 'session-lost' and any(sg == key for sg, _ in overlap.one_record_per_user(u, go['ses'].get(cid, []), go['orph'].get(cid, []))):
+                bad.add(cid)
+        return bad
+    small = overlap.shrink(judge, case['users'], case['steps'])
+    if len(small) < len(case['steps']):
+        return dict(obj, case=dict(case, steps=small), original_case=case)
+    return obj
 
 
 def run_cases(ctx, cases, tag, with_real=True):
@@ -183,12 +220,24 @@ def correspondence(ctx, verdict, pr):
     orc = 0
     reported = {}
 
+    pending = []
+
     def report(sig, what, obj):
-        """at most two replays per kind of failure"""
-        key = sig.split(':')[0]
-        reported[key] = reported.get(key, 0) + 1
-        if reported[key] <= 2:
-            verdict.oracle_failure(sig, what, obj)
+        """collected first: at most two replays per kind of failure, the shortest scenarios"""
+        pending.append((len(obj.get('case', {}).get('steps', [])) if isinstance(obj.get('case'), dict) else 0, len(pending), sig, what, obj))
+
+    def flush_reports():
+        for _, _, sig, what, obj in sorted(pending, key=lambda x: x[:2]):
+            key = sig.split(':')[0]
+            reported[key] = reported.get(key, 0) + 1
+            if reported[key] <= 2:
+                if isinstance(obj.get('case'), dict):
+                    known = any(f.get('status', 'open') == 'open' and re.fullmatch(f['signature'], sig) for f in vlib.known_findings(ctx.pid))
+                    if not known and reported[key] == 1 and key in ('session-lost', 'two-records-for-one-user', 'two-valves-for-one-user'):
+                        obj = shrink_case(ctx, obj, key)
+                    obj = dict(obj, schedule=overlap.describe(obj['case']['steps']))
+                verdict.oracle_failure(sig, what, obj)
+        del pending[:]
     for cid, users, steps, kind in cases:
         io = go['obs'].get(cid)
         if io is None:
@@ -212,13 +261,21 @@ def correspondence(ctx, verdict, pr):
                                    'C17 oracle: operations blocked forever (nobody is parked, %d threads wait for locks)' % len(go['blocked'][cid]),
                                    dict(case=dict(id=cid, users=users, steps=steps), implementation=io, model=mo,
                                         blocked_threads=go['blocked'][cid], goroutines=dump, how=how))
-        # oracle 2: every live session of a limited user is reachable from the panel
-        for k in go['orph'].get(cid, [])[:2]:
+        # oracle 2: at every quiescent moment every live session of a limited user is reachable from the panel
+        # (at the end of the scenario, and after every step that leaves all threads finished)
+        lost, when = lost_sessions(go, cid)
+        for k in lost[:2]:
             orc += 1
             sig = classify(cid, k, go['ses'].get(cid, []), corresponded)
-            report(sig, 'C17 oracle: live session %d of scenario %s is not reachable from userPanel.activeUsers at quiescence' % (k, cid),
+            report(sig, 'C17 oracle: live session %d of scenario %s is not reachable from userPanel.activeUsers at the quiescent moment %s' % (k, cid, when),
                                    dict(case=dict(id=cid, users=users, steps=steps), implementation=io, model=mo,
-                                        unreachable_sessions=go['orph'][cid], sessions=go['ses'].get(cid), how=how))
+                                        unreachable_sessions=lost, quiescent_moment=when, sessions=go['ses'].get(cid), how=how))
+        # oracle 3: the live sessions of one limited user that the panel can reach belong to ONE record / ONE valve
+        for sig, msg in overlap.one_record_per_user(users, go['ses'].get(cid, []), go['orph'].get(cid, [])):
+            orc += 1
+            report(sig + ':' + kind, 'C17 oracle: ' + msg,
+                   dict(case=dict(id=cid, users=users, steps=steps), implementation=io, model=mo, sessions=go['ses'].get(cid), how=how))
+    flush_reports()
     f5 = go.get('f5real')
     if f5 is None or f5.get('err', '-') != '-':
         res['broken'].append(('replay of F5 through the real dispatchConnection did not run', str(f5)))
@@ -238,7 +295,7 @@ def correspondence(ctx, verdict, pr):
                                   cid, bycase[cid][1], ' '.join(bycase[cid][2]), ' '.join(go['replay'].get(cid, [])), io, mo)))
     verdict.cov.update(
         evaluations=len(cases), distinct_nontrivial=len(distinct),
-        rule='distinct (users, step list); each scenario = 5..30 lock-step operations on the real panel (admission, CloseSession, connection loss, traffic, updateUsageQueue, commitUpdate, rounds, admin writes/deletes, clock), with threads held at the two schedule points; %d deterministic replays (F4 x3, F5 x2, stale close) + F5 through the real dispatcher' % len(DET),
+        rule='distinct (users, step list); each scenario = 5..30 lock-step operations on the real panel (admission, CloseSession, connection loss, traffic, updateUsageQueue, commitUpdate, rounds, admin writes/deletes, clock), with threads held at the two schedule points; %d deterministic replays (F4 x3, F5 x2, stale close) + F5 through the real dispatcher; calls OVERLAPPING through the UserManager seam (threads held inside Manager.AuthenticateUser / AuthoriseNewSession / UploadStatus by a wrapper around the real localManager, the other callers observed blocked or not): exhaustive release orders of 2-3 first connections of one user, of 1-3 upload rounds, of two GetSession calls, + seeded compositions' % len(DET),
         samples=[' '.join(mlines[0].split()[1:]) if mlines else '', ' '.join(mlines[len(mlines) // 2].split()[1:])[:400] if mlines else ''],
         traces_validated_against_impl=len(go['obs']), mismatches=len(mism), oracle_failures=orc,
         input_distribution=dict(kinds=vlib.summarize_dist(kinds), scenarios_with_a_lock_blocked_thread=nblocked_obs,
@@ -250,6 +307,45 @@ def correspondence(ctx, verdict, pr):
                         generator_cmd=panellib.LOCKSCAN_CMD),
         code_has_F5_repair=go['cfg'].get('patched') == '1', f5_real_dispatcher=f5)
     return res
+
+
+def search(ctx, verdict, problems):
+    """A proof obligation (e.g. a generated atomicity obligation) or the correspondence broke and the seeded
+    scenarios showed no property failure: look for one among overlapped calls, densely - the exhaustive
+    families of overlap.py and many more seeded compositions, judged by the two model-independent oracles
+    (nothing blocks forever; every live session of a limited user is reachable from its one record)."""
+    rng = ctx.rng
+    cases = overlap.cases(rng, 400 if ctx.quick() else 4000)
+    rc, log, go, dt = run_cases(ctx, cases, 'search', with_real=False)
+    found = []
+    for cid, users, steps, kind in cases:
+        io = go['obs'].get(cid)
+        if io is None:
+            continue
+        obj = dict(case=dict(id=cid, users=users, steps=steps), implementation=io, sessions=go['ses'].get(cid),
+                   schedule=overlap.describe(steps), no_longer_checks=[p[0] for p in problems][:6],
+                   how='python3 tools/check.py C17 --replay <this file>')
+        if cid in go['blocked']:
+            found.append((len(steps), 'deadlock:threads-%s-wait-forever' % '-'.join(map(str, go['blocked'][cid])),
+                          'C17 oracle (search): operations blocked forever', obj))
+        lost, when = lost_sessions(go, cid)
+        for k in lost[:1]:
+            # both known faces of F5 need a termination (CloseSession of a last session / TERMINATE) before the
+            # loss; without one it is something else
+            upto = steps if not go.get('orphat', {}).get(cid) else steps[:go['orphat'][cid][0][0] + 1]
+            sig = 'session-lost:overlapped-calls' if not any(st[0] in 'CMR' for st in upto) else classify(cid, k, go['ses'].get(cid, []), True)
+            found.append((len(steps), sig, 'C17 oracle (search): live session %d of scenario %s is not reachable from userPanel.activeUsers at the quiescent moment %s' % (k, cid, when),
+                          dict(obj, unreachable_sessions=lost, quiescent_moment=when)))
+        for sig, msg in overlap.one_record_per_user(users, go['ses'].get(cid, []), go['orph'].get(cid, [])):
+            found.append((len(steps), sig + ':' + kind, 'C17 oracle (search): ' + msg, obj))
+    new = False
+    for _, sig, what, obj in sorted(found, key=lambda x: x[0])[:40]:
+        if new:
+            break
+        if verdict.oracle_failure(sig, what, obj) == 'new':
+            new = True
+    ctx.notes.append('search over %d overlapped scenarios: %d oracle failures' % (len(cases), len(found)))
+    return new
 
 
 def replay(ctx, verdict):
@@ -271,8 +367,14 @@ def replay(ctx, verdict):
     bad = 0
     if cid in go['blocked']:
         print('oracle: threads', go['blocked'][cid], 'blocked forever; goroutine dump:', go['hang'].get(cid)); bad = 1
-    if cid in go['orph']:
-        print('oracle: live sessions', go['orph'][cid], 'unreachable from the panel'); bad = 1
+    lost, when = lost_sessions(go, cid)
+    if lost:
+        print('oracle: live sessions', lost, 'unreachable from the panel', when); bad = 1
+    for sig, msg in overlap.one_record_per_user(case['users'], go['ses'].get(cid, []), go['orph'].get(cid, [])):
+        print('oracle:', sig, msg); bad = 1
+    print('sessions (k, uid, closed, bornDead, rx, tx, notice, valve#, record#):', go['ses'].get(cid))
+    for ln in overlap.describe(case['steps']):
+        print('   ', ln)
     return bad
 
 
